@@ -35,7 +35,7 @@ func init() {
 			if tier == "thorough" {
 				return fw.Plan{Shards: 16, CasesPerShard: 1250, TimeoutSec: 3000}
 			}
-			return fw.Plan{Shards: 8, CasesPerShard: 40, TimeoutSec: 900}
+			return fw.Plan{Shards: 8, CasesPerShard: 250, TimeoutSec: 900}
 		},
 		Run: runC04,
 	})
